@@ -333,7 +333,9 @@ def cv7(prog, rr):
                         and isinstance(a.value, ast.Constant) and a.value.value is True:
                     found_flags.add(a.targets[0].id)
     cp_loops = [lp for lp in walk_local(f.node) if isinstance(lp, ast.For) and norm(lp.iter) == "self.coverpoint_model_l"]
-    rr.require(cp_loops, "cross sample(): loop over self.coverpoint_model_l not found")
+    if not cp_loops:
+        # the key may be computed by a helper of the class that returns it, or None when the cross is not hit
+        return _cv7_via_helper(prog, rr, f, cname)
     cpv = norm(cp_loops[0].target)
     incs = [n for n in walk_local(f.node) if isinstance(n, ast.AugAssign) and isinstance(n.target, ast.Subscript) and norm(n.target.value) == "self.hit_l"]
     rr.inst("cross increments: %d; boolean locals %s; found flags %s" % (len(incs), sorted(bools), sorted(found_flags)))
@@ -430,11 +432,122 @@ def cv7(prog, rr):
                 ok = True
         if not ok:
             rr.finding(f, a, cname, "CV7: key element '%s' is not (bin marker + running offset reset per coverpoint and advanced by get_n_bins())" % norm(a.args[0]))
+    _cv7_hit_map(prog, rr)
+
+
+def _cv7_hit_map(prog, rr):
+    from sa.ir import expand_locals
     bh = prog.method("CoverpointCrossModel", "_build_hit_map")
     rr.inst("_build_hit_map present")
-    t = norm(bh.node)
-    if "self.coverpoint_model_l[i].get_n_bins()" not in t.replace(bh.params[1], "i"):
+    ok = False
+    for c in walk_local(bh.node):
+        if isinstance(c, ast.Call) and call_name(c) == "get_n_bins" and isinstance(c.func.value, ast.Subscript) \
+                and expand_locals(bh.node, c.func.value.value) == "self.coverpoint_model_l":
+            ok = True
+    if not ok:
         rr.finding(bh, bh.node, "CoverpointCrossModel._build_hit_map", "CV7: cross bins are not enumerated over each coverpoint's flat bin count", text="enumeration")
+
+
+def _cv7_via_helper(prog, rr, f, cname):
+    """sample(): `key = self.<helper>()` ; `if key is not None: ... self.hit_l[...] += 1`.  The helper returns the key on the
+    paths where the cross iff, every coverpoint's iff and a hit per coverpoint were seen, and None (or nothing) otherwise."""
+    from sa.ir import guard_facts
+    cls = prog.cls("CoverpointCrossModel")
+    cands = []
+    for a in walk_local(f.node):
+        if isinstance(a, ast.Assign) and len(a.targets) == 1 and isinstance(a.targets[0], ast.Name) and isinstance(a.value, ast.Call) \
+                and recv_text(a.value) == "self" and call_name(a.value) in cls.methods and not a.value.args and not a.value.keywords:
+            g = cls.methods[call_name(a.value)]
+            if any(isinstance(lp, ast.For) and norm(lp.iter) == "self.coverpoint_model_l" for lp in walk_local(g.node)):
+                cands.append((a, g))
+    rr.require(len(cands) == 1, "cross sample(): loop over self.coverpoint_model_l not found")
+    asg, g = cands[0]
+    kv = asg.targets[0].id
+    gname = "CoverpointCrossModel." + g.name
+    cp_loops = [lp for lp in walk_local(g.node) if isinstance(lp, ast.For) and norm(lp.iter) == "self.coverpoint_model_l"]
+    cpv = norm(cp_loops[0].target)
+    incs = [n for n in walk_local(f.node) if isinstance(n, ast.AugAssign) and isinstance(n.target, ast.Subscript) and norm(n.target.value) == "self.hit_l"]
+    incs += [n for n in walk_local(g.node) if isinstance(n, ast.AugAssign) and isinstance(n.target, ast.Subscript) and norm(n.target.value) == "self.hit_l"]
+    rr.inst("cross increments: %d; key computed by %s" % (len(incs), gname))
+    if len(incs) != 1:
+        rr.finding(f, f.node, cname, "CV7: %d increments of self.hit_l in cross sample(); exactly one expected" % len(incs), text="increments %d" % len(incs))
+        return
+    inc = incs[0]
+    if not (isinstance(inc.op, ast.Add) and norm(inc.value) == "1"):
+        rr.finding(f, inc, cname, "CV7: cross bin is changed by '%s'; expected += 1" % norm(inc))
+    facts = guard_facts(f.node, inc, with_raise=False)
+    stores = [n for n in walk_local(f.node) if isinstance(n, ast.Name) and n.id == kv and isinstance(n.ctx, ast.Store)]
+    if not any(x in ("%s is not None" % kv, "%s != None" % kv, "not %s is None" % kv, "not %s == None" % kv) for x in facts) or len(stores) != 1 \
+            or inc.lineno < asg.lineno:
+        rr.finding(f, inc, cname, "CV7: the cross bin is incremented without testing that %s() found a key (guards: %s)" % (g.name, facts), text="key not tested")
+    xiff_outside = any(x in ("self.iff_val_cache",) for x in guard_facts(f.node, asg, with_raise=False))
+    problems = set()
+
+    class D(Domain):
+        # u = (failed, cp iff seen true in this iteration, cross iff true, key element appended in this iteration, iterations started)
+        def initial_user(s):
+            return (False, False, xiff_outside, False, False)
+
+        def pure_call(s, call):
+            return super().pure_call(call) or call_name(call) in ("hit_idx", "get_n_bins")
+
+        def decide(s, st, test, ctx):
+            failed, cpiff, xiff, app, started = st.u
+            if norm(test) == "self.iff_val_cache":
+                return [(True, st._replace(u=(failed, cpiff, True, app, started))), (False, st)]
+            if norm(test) == cpv + ".iff_val_cache":
+                return [(True, st._replace(u=(failed, True, xiff, app, started))), (False, st._replace(u=(True, False, xiff, app, started)))]
+            return super().decide(st, test, ctx)
+
+        def on_for(s, st, node, first=True):
+            if node in cp_loops:
+                failed, cpiff, xiff, app, started = st.u
+                if started and not app:
+                    failed = True       # the previous coverpoint contributed no key element
+                ent = st._replace(u=(failed, False, xiff, False, True))
+                ext = st._replace(u=(failed, False, xiff, False, False))
+                return [("enter", ent), ("exit", ext)]
+            return [("enter", st), ("exit", st)]
+
+        def on_call(s, st, call, ctx):
+            failed, cpiff, xiff, app, started = st.u
+            if call_name(call) == "append" and "hit_idx" in norm(call):
+                if not cpiff:
+                    problems.add("a coverpoint's hit marker is read on a path where that coverpoint's iff value was not tested true "
+                                 "(a gated-off coverpoint still holds the marker of an earlier sample)")
+                st = st._replace(u=(failed, cpiff, xiff, True, started))
+            return [(FALL, st, None)]
+
+        def on_return(s, st, stmt):
+            failed, cpiff, xiff, app, started = st.u
+            if stmt.value is None or (isinstance(stmt.value, ast.Constant) and stmt.value.value is None):
+                return st
+            if started and not app:
+                failed = True
+            if failed:
+                problems.add("a key is returned on a path where an earlier coverpoint was gated off by its iff or hit no bin "
+                             "(the failing coverpoint does not stop the combination)")
+            if not xiff:
+                problems.add("a key is returned on a path that never tested the cross's own iff value")
+            return st
+    Interp(D(), func=g).run(g.node)
+    for p in sorted(problems):
+        rr.finding(g, g.node, gname, "CV7: " + p, text=p[:70])
+    apps = [n for n in walk_local(g.node) if isinstance(n, ast.Call) and call_name(n) == "append" and "hit_idx" in norm(n)]
+    rr.inst("cross key construction sites: %d" % len(apps))
+    if not apps:
+        rr.finding(g, g.node, gname, "CV7: the cross key is not built from the coverpoints' hit markers", text="no key")
+    for a in apps:
+        offs = [x for x in names_in(a.args[0]) if "." not in x and x != cpv]
+        ok = False
+        for o in offs:
+            inc_o = [n for n in walk_local(g.node) if isinstance(n, ast.AugAssign) and norm(n.target) == o and "get_n_bins()" in norm(n.value)]
+            rst = [n for n in walk_local(cp_loops[0]) if isinstance(n, ast.Assign) and norm(n.targets[0]) == o and norm(n.value) == "0"]
+            if inc_o and rst:
+                ok = True
+        if not ok:
+            rr.finding(g, a, gname, "CV7: key element '%s' is not (bin marker + running offset reset per coverpoint and advanced by get_n_bins())" % norm(a.args[0]))
+    _cv7_hit_map(prog, rr)
 
 
 # --------------------------------------------------------------------------------------- CV8 / monotone accumulators
